@@ -141,6 +141,9 @@ def replay_text(rec):
     if rec.get("ev") == "walk":
         return ("a browser that brought /callback a state naming a nested redirect signed '%s' was, %d hop(s) later, handed an authorization code for it: %s"
                 % (rec["nested"], rec["hops"], json.dumps(rec.get("conc"))[:900]))
+    if rec.get("ev") == "sigreuse":
+        return ("%s acted on a redirect the proxy never signed: the signature and timestamp of a genuine request, accepted a moment before, were presented with another redirect: %s"
+                % (rec["ep"], json.dumps(rec.get("conc"))[:900]))
     return ("%s acted on a signed request whose timestamp was %d s old (the same request had been accepted when it was %d s old): %s"
             % (rec["ep"], rec["age2"], rec["age1"], json.dumps(rec.get("conc"))[:400]))
 
